@@ -128,6 +128,27 @@ def render(i, cell, nonecells=()):
     return "\n".join(lines)
 
 
+def callees(cells, n):
+    """the elements the formula of `n` calls, in source order, with repeats (programs without uncached cells)"""
+    i, x = n
+    res = []
+    for c in cells[i]["calls"]:
+        if c[0] == "same":
+            res.append((c[1], x))
+        elif c[0] == "dec":
+            if x > 0:
+                res.append((c[1], x - 1))
+        elif c[0] == "const":
+            res.append((c[1], c[2]))
+        else:
+            res.append((c[1], None))
+    return res
+
+
+def val_str(v):
+    return "N" if v is None else str(v)
+
+
 def node_name(n):
     return "c%d(%s)" % (n[0], "" if n[1] is None else n[1])
 
@@ -384,6 +405,7 @@ def run_case(case, out, stats, model_jobs):
         ids = Ids(ordered)
         w.log.clear()
         trace = []
+        vtrace = []
         try:
             for act in actions:
                 with quiet():
@@ -391,6 +413,8 @@ def run_case(case, out, stats, model_jobs):
                 h = w.held()
                 trace.append(" ".join(str(i) for i in sorted(ids(n) for n in h)) + "/" +
                              " ".join(str(i) for i in sorted(ids(n) for n, vi in h.items() if vi[1])))
+                vtrace.append(" ".join("%d=%s" % (i, v) for i, v in sorted((ids(n), val_str(vi[0]))
+                                                                          for n, vi in h.items())))
         except Exception as e:
             out.fail("execute_actions raised %s" % err_kind(e), hist)
             return
@@ -442,6 +466,17 @@ def run_case(case, out, stats, model_jobs):
             " ".join(str(ids(n)) for n in order_of(start_held)) or "-", acts_str(impl_acts))
         model_jobs.append((hist, "exec", exec_line,
                            "|".join(trace) + " ; log=" + " ".join(str(ids(n)) for n in execs)))
+        # the same run on the model WITH values (programs without uncached cells: the formula of an element is
+        # then a function of the values of the elements it calls): held values, None included, after every action
+        if all(c["cached"] and not c.get("fail") for c in cells) and actions:
+            specs = " ".join("%d=%d,%d:%s" % (ids(n), cells[n[0]]["base"], cells[n[0]].get("none") or 0,
+                                              ",".join(str(ids(q)) for q in callees(cells, n))) for n in xnodes)
+            vins = " ".join("%d=%s" % (ids(n), val_str(v)) for n, v in sorted(inputs, key=repr)) or "-"
+            vline = "vexecfrom %d ; %s ; %s ; %s ; %s ; %s" % (
+                len(xnodes) + 2, preds_line(xnodes), vins,
+                " ".join(str(ids(n)) for n in order_of(start_held)) or "-", specs or "-", acts_str(impl_acts))
+            model_jobs.append((hist, "values", vline, "|".join(vtrace)))
+            stats["valued_runs"] = stats.get("valued_runs", 0) + 1
         gnodes = list(ordered) + [n for n in order_of(pre_held) if n not in oset]
         gen_line = "gen %d ; %s ; %s ; %s ; %s" % (
             len(gnodes) + 2, preds_line(gnodes), ins,
@@ -723,7 +758,7 @@ def run(ctx, out):
             "random_action_lists", "random_lists_with_recomputation", "empty_target_lists",
             "start_with_calculated_values", "start_with_needed_values", "values_between_generate_and_execute",
             "random_actions_skipped_failing", "none_valued_elements", "none_valued_target",
-            "none_valued_kept_across_blocks", "none_valued_user_input") if k in stats},
+            "none_valued_kept_across_blocks", "none_valued_user_input", "valued_runs") if k in stats},
     })
     out.assumptions.append(
         "the cache model (held set, input marks, trace edges, clear-with-dependents, paste detaches) behind "
